@@ -746,7 +746,7 @@ def step_history(sess, ops, k):
 
 def histories_phase(tier):
     def fn(shard, nshards, seed, stats):
-        n_examples = (40 if tier == 'quick' else 400)
+        n_examples = (40 if tier == 'quick' else 1500)
         steps = 30 if tier == 'quick' else 50
         STATE['stats'] = stats
         STATE['steps'] = 0
@@ -870,7 +870,7 @@ def required_labels(tier):
 
 
 def phases(tier, seed):
-    n = 640 if tier == 'quick' else 8000
+    n = 640 if tier == 'quick' else 40000
     ph = [
         Custom('histories', histories_phase(tier)),
         Search('history-data', history_cases(), n // 2),
